@@ -150,6 +150,8 @@ Variable lo : Z.          (* every position of the run lies in the window [lo, l
 Definition committed (cp : Z) (prods : list pstate) (s : slot) : Prop :=
   0 < s_len s /\
   ((s_type s = PAD /\ s_len s = s_span s /\ s_body s = [] /\ (s_pos s + s_span s) mod cp = 0 /\ s_seq s < 0) \/
+   (* a command written before the threads were started (owner 0) *)
+   (s_owner s = 0 /\ s_seq s = 0 /\ valid_cmd (s_type s) = true /\ s_len s = rl_of (s_body s) /\ s_span s = rq_of (s_body s)) \/
    (exists i ps, s_owner s = Z.of_nat (S i) /\ nth_error prods i = Some ps /\ 0 <= s_seq s /\
       nth_error (p_prog ps) (Z.to_nat (s_seq s)) = Some (s_type s, s_body s) /\
       valid_cmd (s_type s) = true /\ s_len s = rl_of (s_body s) /\ s_span s = rq_of (s_body s) /\
@@ -209,7 +211,7 @@ Definition cons_ok (R : ring) (prods : list pstate) (cs : cstate) : Prop :=
       has_limit cs /\ hd = r_head R /\
       exists used s, used_ok R prods bytes (used ++ [s]) /\ acc = msgs_of used /\
         msgs = Z.of_nat (length acc) + 1 /\ s_pos s = p /\ s_len s = len /\ s_type s = ty /\
-        is_rec s = true /\ ri = p mod r_cap R
+        is_rec s = true
   | CZero hd bytes msgs acc =>
       has_limit cs /\ hd = r_head R /\ 0 < bytes /\
       exists used, used_ok R prods bytes used /\ acc = msgs_of used
@@ -249,8 +251,8 @@ Proof. intros E Hp Hk j q Hj. destruct (Nat.eq_dec i j) as [<- | Hne].
   - rewrite nth_set_nth_neq by assumption. exists q. auto. Qed.
 
 Lemma committed_ext cp prods prods' s : ext prods prods' -> committed cp prods s -> committed cp prods' s.
-Proof. intros X (Hl & [P | (i & ps & A & B & C & D & E & F & G & H)]); split; auto.
-  right. destruct (X i ps B) as (ps' & B' & Ep & Ek). exists i, ps'. rewrite Ep. repeat split; auto. lia. Qed.
+Proof. intros X (Hl & [P | [Q | (i & ps & A & B & C & D & E & F & G & H)]]); split; auto.
+  right. right. destruct (X i ps B) as (ps' & B' & Ep & Ek). exists i, ps'. rewrite Ep. repeat split; auto. lia. Qed.
 
 Lemma pc_ok_mono R R' ps : r_cap R' = r_cap R -> r_head R <= r_head R' -> r_tail R <= r_tail R' ->
   pc_ok R ps -> pc_ok R' ps.
@@ -278,7 +280,7 @@ Lemma cons_ok_frame R R' prods prods' cs :
   r_cap R' = r_cap R -> r_head R' = r_head R -> ext prods prods' ->
   (forall u, (exists rest, r_slots R = u ++ rest) -> Forall (committed (r_cap R) prods) u -> exists rest', r_slots R' = u ++ rest') ->
   cons_ok R prods cs -> cons_ok R' prods' cs.
-Proof. intros Ec Eh X Hs. unfold cons_ok. rewrite Ec, Eh. destruct (c_pc cs); auto.
+Proof. intros Ec Eh X Hs. unfold cons_ok. rewrite ?Ec, ?Eh. destruct (c_pc cs); auto.
   - intros (L & Hh & used & U & A & B). split; [assumption |]. split; [assumption |]. exists used.
     split; [eapply used_ok_frame; eassumption | auto].
   - intros (L & Hh & used & s & U & A). split; [assumption |]. split; [assumption |]. exists used, s.
@@ -676,9 +678,246 @@ Proof.
     + intros s. rewrite D. intros [].
     + intros s. unfold expect at 1. rewrite Aw1, Epc. cbn [In]. intros [<- | []] Hne. exfalso; apply Hne; reflexivity.
     + left. unfold committed, set_len, s0. cbn [s_pos s_span s_len s_type s_body s_seq s_owner].
-      split; [unfold rl_of; lia |]. right. exists i, (finish (r_cap R) ps (Ok 0)).
+      split; [unfold rl_of; lia |]. right. right. exists i, (finish (r_cap R) ps (Ok 0)).
       rewrite (nth_set_nth_eq _ _ _ _ Hi). rewrite B. rewrite Nat2Z.id. repeat split; auto; lia.
     + eapply pc_ok_mono; [| | | exact A]; cbn [set_slots r_cap r_head r_tail]; lia.
+Qed.
+
+
+(* ================================================================== consumer steps *)
+Lemma span_sum_app a b : span_sum (a ++ b) = span_sum a + span_sum b.
+Proof. induction a; cbn [app span_sum]; lia. Qed.
+
+Lemma msgs_of_app a b : msgs_of (a ++ b) = msgs_of a ++ msgs_of b.
+Proof. unfold msgs_of. rewrite filter_app, map_app. reflexivity. Qed.
+
+Lemma tiled_split_sum cp h t a b : tiled cp h t (a ++ b) -> tiled cp h (h + span_sum a) a /\ tiled cp (h + span_sum a) t b.
+Proof. revert h. induction a as [| s a IH]; intros h T; cbn [app span_sum] in *.
+  - rewrite Z.add_0_r. split; [constructor | assumption].
+  - inversion T as [| h0 t0 s0 sl0 Hp G T2]; subst. destruct (IH _ T2) as (A & B).
+    replace (s_pos s + (s_span s + span_sum a)) with (s_pos s + s_span s + span_sum a) by lia.
+    split; [constructor; auto | assumption]. Qed.
+
+Lemma tiled_start_mod8 cp h t sl : tiled cp h t sl -> t mod 8 = 0 -> h mod 8 = 0.
+Proof. destruct 1 as [| h t s sl Hp G T]; intros; [assumption |]. destruct G as (_ & G8 & _). congruence. Qed.
+
+Lemma committed_shape cp prods s : geo cp s -> committed cp prods s ->
+  0 < s_len s /\ s_span s = align (s_len s) 8 /\
+  ((s_type s = PAD /\ is_rec s = false) \/
+   (valid_cmd (s_type s) = true /\ is_rec s = true /\ s_len s = Z.of_nat (length (s_body s)) + 8)).
+Proof. intros (_ & _ & _ & Gs8 & _) (Hl & [(A & B & C & D & E) | [(A & B & C & F & G) | (i & ps & A & B & C & D & E & F & G & H)]]).
+  - split; [assumption |]. split.
+    + rewrite B. symmetry. apply align8_id. assumption.
+    + left. split; [assumption |]. unfold is_rec. lia.
+  - split; [assumption |]. split; [rewrite G, F; reflexivity |]. right. split; [assumption |]. split; [unfold is_rec; lia |].
+    rewrite F. reflexivity.
+  - split; [assumption |]. split; [rewrite G, F; reflexivity |]. right. split; [assumption |]. split; [unfold is_rec; lia |].
+    rewrite F. reflexivity. Qed.
+
+(* looking up the slot in front of the consumer *)
+Lemma used_below cp h t used rest : tiled cp h t (used ++ rest) ->
+  Forall (fun x => s_pos x + s_span x <= h + span_sum used) used.
+Proof. intros T. destruct (tiled_split_sum _ _ _ _ _ T) as (A & _).
+  pose proof (tiled_range _ _ _ _ A) as R. eapply Forall_impl; [| exact R]. cbn. intros a (_ & Ha & _). lia. Qed.
+
+Lemma front_none cp h t used : tiled cp h t (used ++ []) -> pos_word (used ++ []) (h + span_sum used) = 0.
+Proof. intros T. unfold pos_word. rewrite find_slot_none; [reflexivity |].
+  pose proof (used_below _ _ _ _ _ T) as F. rewrite app_nil_r. exact F. Qed.
+
+Lemma front_some cp h t used s rest : tiled cp h t (used ++ s :: rest) ->
+  s_pos s = h + span_sum used /\
+  pos_word (used ++ s :: rest) (h + span_sum used) = s_len s /\
+  pos_word (used ++ s :: rest) (h + span_sum used + 4) = s_type s /\
+  find_slot (used ++ s :: rest) (h + span_sum used) = Some s.
+Proof. intros T. destruct (tiled_split_sum _ _ _ _ _ T) as (_ & B).
+  inversion B as [| h0 t0 s0 sl0 Hp G T2]; subst. pose proof (used_below _ _ _ _ _ T) as F.
+  destruct G as (_ & _ & Gs & _). rewrite <- Hp in F |- *.
+  split; [reflexivity |]. split; [apply pos_word_len; [assumption | lia] |].
+  split; [apply pos_word_type; [assumption | lia] |]. apply find_slot_skip; [assumption | lia]. Qed.
+
+
+Lemma inv_cons_pure R cs cs' prods :
+  Inv (mkCfg R cs prods) -> head' R cs' = head' R cs -> cons_ok R prods cs' -> Inv (mkCfg R cs' prods).
+Proof. intros [Icap Ilo Ihc Ih8 It8 Ihh Itl Isz Iwin Isl Ipr Ics] Eh Hc. cbn [g_ring g_cons g_prods] in *.
+  constructor; cbn [g_ring g_cons g_prods]; rewrite ?Eh; auto. Qed.
+
+Lemma finish_read_ok R prods cs n acc : cons_ok R prods (finish_read cs n acc) /\ head' R (finish_read cs n acc) = r_head R.
+Proof. unfold finish_read, cons_ok, head', has_limit. cbn [c_pc c_limits c_k].
+  destruct (nth_error (c_limits cs) (S (c_k cs))) as [z |] eqn:E; split; auto. exists z. reflexivity. Qed.
+
+Lemma has_limit_set cs pc : has_limit cs -> has_limit (cset_pc cs pc).
+Proof. unfold has_limit. cbn [cset_pc c_limits c_k]. auto. Qed.
+
+(* the loop test after `used` has been walked over *)
+Lemma after_loop_ok m R prods cs limit bytes used :
+  cap_ok (r_cap R) -> has_limit cs -> used_ok R prods bytes used -> 0 <= bytes ->
+  let acc := msgs_of used in
+  let msgs := Z.of_nat (length acc) in
+  forall cs', (cs' = loop_check m (r_cap R) limit cs (r_head R) bytes msgs acc \/ cs' = loop_exit cs (r_head R) bytes msgs acc) ->
+  cons_ok R prods cs' /\ head' R cs' = r_head R.
+Proof. intros Hc Hl U Hb acc msgs cs' Hcs.
+  assert (X : cons_ok R prods (loop_exit cs (r_head R) bytes msgs acc) /\ head' R (loop_exit cs (r_head R) bytes msgs acc) = r_head R).
+  { unfold loop_exit. destruct (bytes =? 0) eqn:B; [apply finish_read_ok |].
+    unfold cons_ok, head'. cbn [cset_pc c_pc]. split; [| reflexivity].
+    split; [apply has_limit_set; assumption |]. split; [reflexivity |]. split; [lia |]. exists used. auto. }
+  destruct Hcs as [-> | ->]; [| exact X].
+  unfold loop_check. rewrite mask_idx_mod by assumption.
+  pose proof (mod_range (r_cap R) (r_head R) Hc). pose proof (cap_ok_range _ Hc).
+  unfold sub32. rewrite chk32_ok by (apply in_i32_small; unfold two31, two30 in *; lia).
+  destruct ((bytes <? r_cap R - r_head R mod r_cap R) && (msgs <? limit)); [| exact X].
+  unfold cons_ok, head'. cbn [cset_pc c_pc]. split; [| reflexivity].
+  split; [apply has_limit_set; assumption |]. split; [reflexivity |]. exists used. auto. Qed.
+
+Lemma span_sum_nonneg cp h t sl : tiled cp h t sl -> 0 <= span_sum sl.
+Proof. induction 1; cbn [span_sum]; [lia |]. destruct H0 as (_ & _ & ? & _). lia. Qed.
+
+Lemma pos_bytes_committed pre s suf : Forall (fun x => s_pos x + s_span x <= s_pos s) pre ->
+  s_len s = Z.of_nat (length (s_body s)) + 8 -> s_span s = align (s_len s) 8 ->
+  pos_bytes (pre ++ s :: suf) (s_pos s + HL) (s_len s - HL) = s_body s.
+Proof. intros F Hlen Hs. rewrite HL_eq. rewrite Hlen.
+  replace (Z.of_nat (length (s_body s)) + 8 - 8) with (Z.of_nat (length (s_body s))) by lia.
+  unfold pos_bytes. rewrite !Nat2Z.id.
+  destruct (s_body s) as [| b bs] eqn:B.
+  - cbn [length firstn]. destruct (find_slot (pre ++ s :: suf) (s_pos s + 8)); reflexivity.
+  - rewrite find_slot_skip; auto.
+    + rewrite HL_eq. replace (s_pos s + 8 - s_pos s - 8) with 0 by lia. cbn [Z.to_nat skipn].
+      rewrite B. rewrite firstn_app. rewrite Nat.sub_diag. cbn [firstn]. rewrite app_nil_r. apply firstn_all.
+    + pose proof (align8_bounds (s_len s)). rewrite Hlen in *. cbn [length] in *. lia. Qed.
+
+Lemma filter_len_le {A} (f : A -> bool) (l : list A) : (length (filter f l) <= length l)%nat.
+Proof. induction l as [| a l IH]; cbn [filter length]; [lia |]. destruct (f a); cbn [length]; lia. Qed.
+
+Lemma tiled_len8 cp h t sl : tiled cp h t sl -> 8 * Z.of_nat (length sl) <= span_sum sl.
+Proof. induction 1; cbn [length span_sum]; [lia |]. destruct H0 as (_ & _ & ? & _). lia. Qed.
+
+Lemma cstep_inv m cfg R' cs' e :
+  Inv cfg -> cstep m (g_ring cfg) (g_cons cfg) = (R', cs', Some e) ->
+  Inv (mkCfg R' cs' (g_prods cfg)).
+Proof.
+  intros HI Hstep. destruct cfg as [R cs prods]. cbn [g_ring g_cons g_prods] in *.
+  pose proof HI as [Icap Ilo Ihc Ih8 It8 Ihh Itl Isz Iwin Isl Ipr Ics]. cbn [g_ring g_cons g_prods] in *.
+  pose proof (cap_ok_range _ Icap) as Hcr.
+  unfold cstep in Hstep. unfold cons_ok in Ics.
+  destruct (c_pc cs) eqn:Epc; try (inversion Hstep; fail); try contradiction.
+  - (* CReadHead *)
+    destruct Ics as (limit & El). rewrite El in Hstep. inversion Hstep; subst R' cs' e. clear Hstep.
+    assert (U : used_ok R prods 0 []) by (split; [exists (r_slots R); reflexivity | split; [constructor | reflexivity]]).
+    destruct (after_loop_ok m R prods cs limit 0 [] Icap ltac:(exists limit; assumption) U ltac:(lia) _ (or_introl eq_refl)) as (A & B).
+    apply (inv_cons_pure R cs _ prods HI); [transitivity (r_head R); [exact B | unfold head'; rewrite Epc; reflexivity] | exact A].
+  - (* CReadHdr *)
+    destruct Ics as ((limit & El) & Ehd & used & U & Eacc & Emsgs). rewrite El in Hstep. subst hd.
+    pose proof U as ((rest & Es) & Uc & Us).
+    assert (Hh' : head' R cs = r_head R) by (unfold head'; rewrite Epc; reflexivity).
+    rewrite Hh' in Itl, Ihh. rewrite Es in Itl.
+    pose proof (span_sum_nonneg _ _ _ _ (proj1 (tiled_split_sum _ _ _ _ _ Itl))) as Hb0. rewrite Us in Hb0.
+    assert (EXIT : forall cs0, cs0 = loop_exit cs (r_head R) bytes msgs acc -> Inv (mkCfg R cs0 prods)).
+    { intros cs0 ->. subst acc msgs.
+      destruct (after_loop_ok m R prods cs limit bytes used Icap ltac:(exists limit; assumption) U Hb0 _ (or_intror eq_refl)) as (A & B).
+      apply (inv_cons_pure R cs _ prods HI); [transitivity (r_head R); [exact B | symmetry; exact Hh'] | exact A]. }
+    destruct rest as [| s rest].
+    + (* nothing in front of the consumer: the header word is zero *)
+      rewrite Es in Hstep. rewrite <- Us in Hstep. rewrite (front_none _ _ _ _ Itl) in Hstep.
+      cbn [Z.leb Z.compare] in Hstep. inversion Hstep; subst R' cs' e. apply EXIT. rewrite Us. reflexivity.
+    + destruct (front_some _ _ _ _ _ _ Itl) as (Hp & Hlen & Hty & Hfind).
+      rewrite Es in Hstep. rewrite <- Us in Hstep. rewrite Hlen, Hty in Hstep.
+      rewrite Es in Isl. apply Forall_app in Isl. destruct Isl as (_ & Isl2). inversion Isl2 as [| a l Hs _]; subst a l.
+      pose proof (tiled_range _ _ _ _ Itl) as Rg. rewrite Forall_forall in Rg.
+      destruct (Rg s ltac:(apply in_or_app; right; left; reflexivity)) as (Rs1 & Rs2 & Gs).
+      destruct Hs as [Cm | (j & q & Hj & Hin)].
+      * (* committed *)
+        destruct (committed_shape _ _ _ Gs Cm) as (Hl & Hsp & Hk).
+        replace (s_len s <=? 0) with false in Hstep by lia.
+        assert (Hlb : s_len s <= s_span s) by (rewrite Hsp; apply align8_bounds).
+        pose proof Gs as (_ & _ & Gs8 & _ & Gstr & _). pose proof (mod_range (r_cap R) (s_pos s) Icap).
+        rewrite ralign_ok in Hstep by (unfold two30 in *; lia). cbn [bind] in Hstep. rewrite <- Hsp in Hstep.
+        unfold add32 in Hstep at 1. rewrite chk32_ok in Hstep by (apply in_i32_small; unfold two31, two30 in *; lia).
+        assert (U2 : used_ok R prods (bytes + s_span s) (used ++ [s])).
+        { split; [exists rest; rewrite Es, <- app_assoc; reflexivity |]. split; [apply Forall_app; split; [assumption | constructor; [assumption | constructor]] |].
+          rewrite span_sum_app. cbn [span_sum]. lia. }
+        destruct Hk as [(Kt & Kr) | (Kv & Kr & Kl)].
+        -- (* padding *)
+           rewrite Kt in Hstep. rewrite Z.eqb_refl in Hstep. inversion Hstep; subst R' cs' e. clear Hstep.
+           assert (Eacc2 : msgs_of (used ++ [s]) = acc).
+           { rewrite msgs_of_app. unfold msgs_of at 2. cbn [filter]. rewrite Kr. cbn [map]. rewrite app_nil_r. auto. }
+           assert (Em : msgs = Z.of_nat (length (msgs_of (used ++ [s])))) by (rewrite Eacc2; assumption).
+           rewrite Em. rewrite <- Eacc2.
+           destruct (after_loop_ok m R prods cs limit (span_sum used + s_span s) (used ++ [s]) Icap ltac:(exists limit; assumption)
+                       ltac:(rewrite Us; exact U2) ltac:(lia) _ (or_introl eq_refl)) as (A & B).
+           apply (inv_cons_pure R cs _ prods HI); [transitivity (r_head R); [exact B | symmetry; exact Hh'] | exact A].
+        -- (* a command *)
+           rewrite (valid_cmd_not_pad _ Kv) in Hstep. rewrite Kv in Hstep.
+           assert (Hmsg : 0 <= msgs <= two30).
+           { subst msgs acc. unfold msgs_of. rewrite map_length.
+             pose proof (filter_len_le is_rec used).
+             pose proof (tiled_len8 _ _ _ _ (proj1 (tiled_split_sum _ _ _ _ _ Itl))).
+             unfold two30 in *. lia. }
+           unfold add32 in Hstep. rewrite chk32_ok in Hstep by (apply in_i32_small; unfold two31, two30 in *; lia).
+           inversion Hstep; subst R' cs' e. clear Hstep.
+           apply (inv_cons_pure R cs _ prods HI); [rewrite Hh'; unfold head'; cbn [cset_pc c_pc]; reflexivity |].
+           unfold cons_ok. cbn [cset_pc c_pc]. split; [apply has_limit_set; exists limit; assumption |]. split; [reflexivity |].
+           exists used, s. rewrite Us. split; [exact U2 |]. repeat split; auto; lia.
+      * (* still being written: the length word is not positive *)
+        destruct (expect_owner _ _ _ Hin) as (_ & Hl0).
+        replace (s_len s <=? 0) with true in Hstep by lia.
+        inversion Hstep; subst R' cs' e. apply EXIT. rewrite Us. reflexivity.
+  - (* CHandler *)
+    destruct Ics as ((limit & El) & Ehd & used & s & U & Eacc & Emsgs & Hp & Hlen & Hty & Hrec). rewrite El in Hstep. subst hd.
+    pose proof U as ((rest & Es) & Uc & Us).
+    assert (Hh' : head' R cs = r_head R) by (unfold head'; rewrite Epc; reflexivity).
+    rewrite Hh' in Itl, Ihh. rewrite Es in Itl. rewrite <- app_assoc in Itl. cbn [app] in Itl.
+    destruct (front_some _ _ _ _ _ _ Itl) as (Hp2 & _ & _ & Hfind).
+    apply Forall_app in Uc. destruct Uc as (Uc1 & Uc2). inversion Uc2 as [| a l Cm _]; subst a l.
+    pose proof (tiled_range _ _ _ _ Itl) as Rg. rewrite Forall_forall in Rg.
+    destruct (Rg s ltac:(apply in_or_app; right; left; reflexivity)) as (_ & _ & Gs).
+    destruct (committed_shape _ _ _ Gs Cm) as (Hl & Hsp & [(_ & Kr) | (Kv & _ & Kl)]); [congruence |].
+    unfold tag_at in Hstep. rewrite Es in Hstep. rewrite <- app_assoc in Hstep. cbn [app] in Hstep.
+    rewrite <- Hp, Hp2 in Hstep. rewrite Hfind in Hstep.
+    rewrite <- Hp2 in Hstep. rewrite <- Hlen in Hstep.
+    rewrite (pos_bytes_committed used s rest) in Hstep; auto.
+    2: { pose proof (used_below _ _ _ _ _ Itl) as F. rewrite <- Hp2 in F. exact F. }
+    inversion Hstep; subst R' cs' e. clear Hstep.
+    assert (Eacc2 : msgs_of (used ++ [s]) = acc ++ [(s_owner s, s_seq s, s_type s, s_body s)]).
+    { rewrite msgs_of_app. unfold msgs_of at 2. cbn [filter]. rewrite Hrec. cbn [map]. subst acc. reflexivity. }
+    assert (Hb0 : 0 <= bytes).
+    { rewrite <- Us. rewrite <- (app_nil_r (used ++ [s])). eapply span_sum_nonneg.
+      rewrite app_nil_r. rewrite Es in *. 
+      destruct (tiled_split_sum (r_cap R) (r_head R) (r_tail R) (used ++ [s]) rest) as (A & _); [rewrite <- app_assoc; exact Itl | exact A]. }
+    rewrite <- Hty. rewrite <- Eacc2.
+    assert (Em2 : msgs = Z.of_nat (length (msgs_of (used ++ [s])))) by (rewrite Eacc2, app_length; cbn [length]; lia).
+    rewrite Em2.
+    destruct (after_loop_ok m R prods cs limit bytes (used ++ [s]) Icap ltac:(exists limit; assumption) U Hb0 _ (or_introl eq_refl)) as (A & B).
+    apply (inv_cons_pure R cs _ prods HI); [transitivity (r_head R); [exact B | symmetry; exact Hh'] | exact A].
+  - (* CZero *)
+    destruct Ics as ((limit & El) & Ehd & Hb & used & U & Eacc). rewrite El in Hstep. subst hd.
+    pose proof U as ((rest & Es) & Uc & Us).
+    assert (Hh' : head' R cs = r_head R) by (unfold head'; rewrite Epc; reflexivity).
+    rewrite Hh' in Itl, Ihh.
+    inversion Hstep; subst R' cs' e. clear Hstep.
+    rewrite Es in Itl. destruct (tiled_split_sum _ _ _ _ _ Itl) as (T1 & T2). rewrite Us in T1, T2.
+    assert (Ef : filter (fun s => negb (consumed (r_head R) bytes s)) (r_slots R) = rest).
+    { rewrite Es. apply filter_consumed.
+      - pose proof (tiled_range _ _ _ _ T1) as R1. eapply Forall_impl; [| exact R1]. cbn. intros a (A1 & A2 & (_ & _ & A3 & _)). lia.
+      - pose proof (tiled_range _ _ _ _ T2) as R2. eapply Forall_impl; [| exact R2]. cbn. intros a (A1 & _). lia. }
+    rewrite Ef.
+    constructor; cbn [g_ring g_cons g_prods set_slots r_cap r_head r_tail r_hc r_slots]; auto;
+      try (unfold head'; cbn [cset_pc c_pc]); try lia; auto.
+    + rewrite Es in Isl. apply Forall_app in Isl. tauto.
+    + intros j q Hj. destruct (Ipr j q Hj) as (A & B & C). split; [| split; [assumption |]].
+      * eapply pc_ok_mono; [| | | exact A]; cbn [set_slots r_cap r_head r_tail]; lia.
+      * intros x Hx. cbn [set_slots r_slots]. specialize (C x Hx). rewrite Es in C. apply in_app_or in C. destruct C as [C | C]; [| assumption].
+        rewrite Forall_forall in Uc. pose proof (committed_len _ _ _ (Uc x C)). destruct (expect_owner _ _ _ Hx). lia.
+    + unfold cons_ok. cbn [cset_pc c_pc set_slots r_head]. split; [apply has_limit_set; exists limit; assumption |]. split; [reflexivity | lia].
+  - (* CPutHead *)
+    destruct Ics as ((limit & El) & Ehd & Hb). rewrite El in Hstep. subst hd.
+    assert (Hh' : head' R cs = r_head R + bytes) by (unfold head'; rewrite Epc; reflexivity).
+    rewrite Hh' in Itl, Ihh.
+    inversion Hstep; subst R' cs' e. clear Hstep.
+    destruct (finish_read_ok (set_head R (r_head R + bytes)) prods cs msgs acc) as (A & B).
+    pose proof (tiled_le _ _ _ _ Itl) as Hle.
+    constructor; cbn [g_ring g_cons g_prods]; rewrite ?B; cbn [set_head r_cap r_head r_tail r_hc r_slots]; auto; try lia.
+    + eapply tiled_start_mod8; eassumption.
+    + intros j q Hj. destruct (Ipr j q Hj) as (A1 & B1 & C1). split; [| split; [assumption | exact C1]].
+      eapply pc_ok_mono; [| | | exact A1]; cbn [set_head r_cap r_head r_tail]; lia.
 Qed.
 
 End Invariant.
